@@ -916,6 +916,15 @@ func (db *DB) Close(ctx context.Context) (err error) {
 	db.syncState = syncState{}
 	db.mu.Unlock()
 
+	// The same goes for the cached position and file infos: the state
+	// directory may be cleared or replaced while the database is closed, so a
+	// reopened DB must read its position from disk again instead of looking
+	// for the local file of a position that no longer exists.
+	db.maxLTXFileInfos.Lock()
+	db.maxLTXFileInfos.m = make(map[int]*ltx.FileInfo)
+	db.maxLTXFileInfos.Unlock()
+	db.invalidatePosCache()
+
 	if sqlDB != nil {
 		if e := sqlDB.Close(); e != nil && err == nil {
 			err = e
